@@ -116,3 +116,20 @@ Print Assumptions C12_simplify_local.
 Print Assumptions C12_laws_as_identities.
 Print Assumptions C12_outside_is_inside.
 Print Assumptions C12_local_refuted_off_release_only.
+
+(** ** simplify / complexify on ids ([simplify_pv_i], [complexify_pv_i], Interner/OpsModel.v: the raw-children arms at
+    the python_full_version node with re-complementation, the explicit always-false child tests, the conjunction
+    arm through [and_i]): the id returned is exactly the id of the interned L1 result, in every reachable store *)
+From PV Require Import Interner.Store Interner.StoreProofs Interner.Intern Interner.AndModel Interner.AndProofs Interner.OpsModel Interner.OpsProofs.
+Theorem C12_simplify_on_ids : forall (fuel : nat) (pfv : N) (w : win) (s : ist (var:=var) (val:=val)) (x : nid),
+  SOKwf is_range s -> valid (length (fst s)) x -> (rank x < fuel)%nat ->
+  let '(s', r) := simplify_pv_i fuel (VVersion pfv) w s x in
+  SOKwf is_range s' /\ intern (fst s') (m_simplify_pv pfv w (unfold (fst s) x)) = (fst s', r).
+Proof. exact simplify_pv_i_refines. Qed.
+Theorem C12_complexify_on_ids : forall (fuel : nat) (pfv : N) (w : win) (s : ist (var:=var) (val:=val)) (x : nid),
+  SOKwf is_range s -> valid (length (fst s)) x -> (rank x < fuel)%nat ->
+  let '(s', r) := complexify_pv_i fuel (VVersion pfv) w s x in
+  SOKwf is_range s' /\ intern (fst s') (m_complexify_pv pfv w (unfold (fst s) x)) = (fst s', r).
+Proof. exact complexify_pv_i_refines. Qed.
+Print Assumptions C12_simplify_on_ids.
+Print Assumptions C12_complexify_on_ids.
